@@ -121,9 +121,8 @@ class OpaqueBytes(bytes):
 _PROXIES = (SymInt, SymBool, StrOf, B64Of, OpaqueFloat)
 
 
-def vt_type(x: Any, *rest: Any) -> Any:
-    if rest:
-        return builtins.type(x, *rest)
+def real_type(x: Any) -> Any:
+    """the Python type a value stands for (proxies report the type they model)"""
     t = getattr(builtins.type(x), "__vt_type__", None)
     if t is not None:
         return t
@@ -132,7 +131,22 @@ def vt_type(x: Any, *rest: Any) -> Any:
     return builtins.type(x)
 
 
+def vt_type(x: Any, *rest: Any) -> Any:
+    """`type` inside cloned namespaces: returns what the names int/str/float/bool denote there."""
+    if rest:
+        return builtins.type(x, *rest)
+    t = real_type(x)
+    return _TO_MODEL.get(t, t)
+
+
+def _unmodel(cls: Any) -> Any:
+    if builtins.isinstance(cls, tuple):
+        return tuple(_unmodel(k) for k in cls)
+    return _TO_REAL.get(cls, cls)
+
+
 def vt_isinstance(x: Any, cls: Any) -> bool:
+    cls = _unmodel(cls)
     t = getattr(builtins.type(x), "__vt_type__", None)
     if t is not None:
         try:
@@ -220,6 +234,12 @@ class _Base64Model:
 
 base64_model = _Base64Model()
 
+for _f, _n in ((vt_int, "int"), (vt_float, "float"), (vt_str, "str"), (vt_bool, "bool")):
+    _f.__name__ = _n
+    _f.__qualname__ = _n
+_TO_MODEL = {int: vt_int, float: vt_float, str: vt_str, bool: vt_bool}
+_TO_REAL = {v: k for k, v in _TO_MODEL.items()}
+
 BUILTIN_MODELS = {
     "type": vt_type,
     "isinstance": vt_isinstance,
@@ -232,7 +252,7 @@ BUILTIN_MODELS = {
 
 def typed_equal(a: Any, b: Any) -> Any:
     """value-and-type equality used by label checks (symbolic aware)."""
-    ta, tb = vt_type(a), vt_type(b)
+    ta, tb = real_type(a), real_type(b)
     if ta is not tb:
         return False
     if isinstance(a, (SymInt, SymBool)) or isinstance(b, (SymInt, SymBool)):
